@@ -10,17 +10,40 @@
    Data universe.  One sample as ModeWrapper returns it is a list of items in
    the order of the dataset mode (a single item is a bare value in Python and a
    one-element list here) plus, with return_ctx, a per-sample context dict.
-   An item is a scalar (Python int / 0-d tensor) or a 1-d integer tensor.
+   An item is a scalar (Python int / float / 0-d tensor) or a tensor of shape
+   (L, *trailing): a sequence of L steps, every step one block of
+   prod(trailing) numbers (stored flattened, row-major); a 1-d tensor has
+   trailing = [] and one number per step.  Every tensor carries its dtype.
+   Numbers are integers (the harness only uses integral values, also for the
+   float dtypes, so that they are exact).
    Collation turns a column of scalars into a vector and a column of equally
-   long sequences into a matrix (torch.stack); ragged columns raise. *)
+   long sequences of one dtype and trailing shape into a (B, L, *trailing)
+   tensor (torch.stack); ragged columns raise. *)
 From Coq Require Import ZArith List Bool.
 Import ListNotations.
 Open Scope Z_scope.
 
 Inductive cmode := MNone | MBefore | MAfter.          (* default_collate_mode *)
 
-Inductive field := FScalar (z : Z) | FSeq (l : list Z).
-Inductive cfield := CVec (l : list Z) | CMat (rows : list (list Z)).
+Inductive dtype := DI64 | DI32 | DF32 | DF64.
+Definition dtype_eqb (a b : dtype) : bool :=
+  match a, b with DI64, DI64 | DI32, DI32 | DF32, DF32 | DF64, DF64 => true | _, _ => false end.
+Fixpoint shape_eqb (a b : list nat) : bool :=
+  match a, b with
+  | [], [] => true
+  | x :: a', y :: b' => Nat.eqb x y && shape_eqb a' b'
+  | _, _ => false
+  end.
+(* one step of a sequence: the prod(trailing) numbers of tensor[i], flattened *)
+Definition elem := list Z.
+Definition numel (tr : list nat) : nat := fold_right Nat.mul 1%nat tr.
+
+Inductive field :=
+| FScalar (d : dtype) (z : Z)                               (* Python int (DI64) / float (DF64) / 0-d tensor *)
+| FSeq (d : dtype) (tr : list nat) (steps : list elem).     (* tensor of shape (length steps, *tr) *)
+Inductive cfield :=
+| CVec (d : dtype) (l : list Z)                             (* shape (B,) *)
+| CMat (d : dtype) (tr : list nat) (rows : list (list elem)). (* shape (B, L, *tr) *)
 Definition sctx := list (Z * Z).          (* per-sample context: key -> value, insertion order *)
 Definition bctx := list (Z * list Z).     (* batched context: key -> values over the batch *)
 
@@ -37,21 +60,27 @@ Fixpoint map_opt {A B} (f : A -> option B) (l : list A) : option (list B) :=
   | a :: l' => match f a, map_opt f l' with Some b, Some r => Some (b :: r) | _, _ => None end
   end.
 
-Definition get_scalar (f : field) : option Z := match f with FScalar z => Some z | _ => None end.
-Definition get_seq (f : field) : option (list Z) := match f with FSeq l => Some l | _ => None end.
+(* the members of one column must agree in dtype (and trailing shape) with the first *)
+Definition get_scalar (d : dtype) (f : field) : option Z :=
+  match f with FScalar d' z => if dtype_eqb d d' then Some z else None | _ => None end.
+Definition get_seq (d : dtype) (tr : list nat) (f : field) : option (list elem) :=
+  match f with
+  | FSeq d' tr' s => if dtype_eqb d d' && shape_eqb tr tr' then Some s else None
+  | _ => None
+  end.
 
-Definition same_len (rows : list (list Z)) : bool :=
+Definition same_len {A} (rows : list (list A)) : bool :=
   match rows with [] => true | r :: rs => forallb (fun r' => Nat.eqb (length r') (length r)) rs end.
 
 (* torch.utils.data.default_collate on one column (cited behaviour) *)
 Definition collate_col (col : list field) : option cfield :=
   match col with
   | [] => None
-  | FScalar _ :: _ => option_map CVec (map_opt get_scalar col)
-  | FSeq _ :: _ => match map_opt get_seq col with
-                   | Some rows => if same_len rows then Some (CMat rows) else None
-                   | None => None
-                   end
+  | FScalar d _ :: _ => option_map (CVec d) (map_opt (get_scalar d) col)
+  | FSeq d tr _ :: _ => match map_opt (get_seq d tr) col with
+                        | Some rows => if same_len rows then Some (CMat d tr rows) else None
+                        | None => None
+                        end
   end.
 
 Definition column (i : nat) (l : list (list field)) : option (list field) :=
@@ -187,18 +216,23 @@ Definition wrapper_call (rc : bool) (m : member) (b : batch) := call_impl rc [m]
 (* ---------------------------------------------------------------------- *)
 (* PadSequencesCollator                                                     *)
 
-Definition max_len (rows : list (list Z)) : nat :=
+(* max(len(seq) for seq in sequences): the number of STEPS (size of dimension 0), not of numbers *)
+Definition max_len {A} (rows : list (list A)) : nat :=
   fold_right (fun r a => Nat.max (length r) a) 0%nat rows.
-Definition pad_row (M : nat) (r : list Z) : list Z := r ++ repeat 0 (M - length r).
-(* torch.nn.utils.rnn.pad_sequence(batch_first=True) on 1-d tensors (cited behaviour) *)
-Definition pad_sequence (rows : list (list Z)) : list (list Z) := map (pad_row (max_len rows)) rows.
+Definition pad_row {A} (z : A) (M : nat) (r : list A) : list A := r ++ repeat z (M - length r).
+(* the padding step: a block of prod(trailing) zeros *)
+Definition zero_elem (tr : list nat) : elem := repeat 0 (numel tr).
+(* torch.nn.utils.rnn.pad_sequence(batch_first=True) on tensors of shape (L_i, *tr) (cited behaviour):
+   result (B, max L_i, *tr), row i = sequence i followed by zero steps *)
+Definition pad_sequence (tr : list nat) (rows : list (list elem)) : list (list elem) :=
+  map (pad_row (zero_elem tr) (max_len rows)) rows.
 
 (* `if torch.is_tensor(first_item) and first_item.ndim > 0: pad_sequence(...) else default_collate(items)` *)
 Definition pad_col (col : list field) : option cfield :=
   match col with
   | [] => None
-  | FSeq _ :: _ => option_map (fun rows => CMat (pad_sequence rows)) (map_opt get_seq col)
-  | FScalar _ :: _ => collate_col col
+  | FSeq d tr _ :: _ => option_map (fun rows => CMat d tr (pad_sequence tr rows)) (map_opt (get_seq d tr) col)
+  | FScalar _ _ :: _ => collate_col col
   end.
 
 (* `for i in range(len(batch[0]))`; the bare single-item branch is the case of one column *)
